@@ -37,11 +37,11 @@ def big_element_sizes(S):
     return (S - 28, S - 20, S - 16, S - 12, S, S + 100, 2 * S + 200)
 
 
-def build_world(S, elem, struct_size, name_len, pers, choices=("rfrag",), tier="thorough", sizes=None):
+def build_world(S, elem, struct_size, name_len, pers, choices=("rfrag",), tier="thorough", sizes=None, string_cap=None):
     import pycomm3
 
     sizes = sizes or windows(S, tier)
-    proj = projgen.p5_ladder(sizes, elem=elem, struct_size=struct_size, name_len=name_len)
+    proj = projgen.p5_ladder(sizes, elem=elem, struct_size=struct_size, name_len=name_len, string_cap=string_cap)
     fill_image(proj, 0)
     ctl = logix.LogixController(proj, pers, None, choices=choices)
     pol = enip.Policy(large_fo="accept" if S == 4000 else "refuse08")
@@ -89,6 +89,9 @@ def shards(tier, seed):
             sh.append(("mixed", S, pers))
         # the same lists on a driver whose first connection attempt was refused altogether (target out of connections) and that was then re-opened
         sh.append(("mixed", S, "v20", "busy2"))
+        # arrays of strings: the element is a structure whose data area is 4 bytes smaller than the element
+        for cap in (82, 20, 1):
+            sh.append(("ladder", S, "v32" if cap == 20 else "v20", None, ("str", cap), 3))
         for ss in big_element_sizes(S):
             sh.append(("ladder", S, "v20" if ss % 8 else "v32", None, ss, 3, "big"))
     return sh
@@ -104,8 +107,11 @@ def run_shard(shard, tier, seed):
     if kind == "ladder":
         _, S, pers, elem, ss, nl = shard[:6]
         big = len(shard) > 6
-        proj, ctl, t, w, d, r = build_world(S, elem or "DINT", ss, nl, pers, tier=tier, sizes=[ss, 2 * ss, 3 * ss] if big else None)
-        cfg = (S, pers, elem or f"struct{ss}", nl)
+        cap = None
+        if isinstance(ss, (tuple, list)):
+            cap, ss = ss[1], None
+        proj, ctl, t, w, d, r = build_world(S, elem or "DINT", ss, nl, pers, tier=tier, sizes=[ss, 2 * ss, 3 * ss] if big else None, string_cap=cap)
+        cfg = (S, pers, elem or (f"string{cap}" if cap else f"struct{ss}"), nl)
         if r != ("ok", True):
             rep.case((cfg, "open"), outcome="open-failed")
             rep.violation("size/open-failed", f"{cfg}: open() -> {r!r:.120}", {"shard": list(shard), "tag": None, "op": "open", "path": None, "choices": []})
@@ -159,7 +165,11 @@ def run_shard(shard, tier, seed):
                     vals = [((i * 7 + 3) % 120) for i in range(n)]
                     value = vals if n > 1 else vals[0]
                 else:
-                    value = [Q.struct_value(tg.typ, i) for i in range(n)] if n > 1 else Q.struct_value(tg.typ, 1)
+                    if tg.typ.string_capacity is not None:
+                        c_ = tg.typ.string_capacity
+                        value = [("s%d" % i * 40)[: (i * 7) % (c_ + 1)] for i in range(n)] if n > 1 else "x" * c_
+                    else:
+                        value = [Q.struct_value(tg.typ, i) for i in range(n)] if n > 1 else Q.struct_value(tg.typ, 1)
                 reqs = [(text, value)] if path == "single" else [(text, value), ("small", 77)] if path == "multi-first" else [("small", 77), (text, value)]
                 ctl.svc_log.clear()
                 n_ev = len(t.events)
